@@ -192,37 +192,76 @@ Section Paths.
   Lemma dispatch_no_reach : forall b fn, ~ reaches (dispatch b fn).
   Proof. intros b fn [m H]. unfold dispatch in H. destruct b; discriminate. Qed.
 
-  Lemma call_never_reaches : forall st (b : bool) n kw (p : path), p = (if b then PCallMeth n kw else PCallFn n kw) -> ~ reaches (run_path st p).
+  Definition invokes (r : fres) : Prop := r = FInvoke.
+
+  Lemma call_never_reaches : forall st (b : bool) n kw lam (p : path),
+    p = (if b then PCallMeth n kw lam else PCallFn n kw lam) -> ~ reaches (run_path st p).
   Proof.
-    intros st b n kw p Hp [m H]. subst p. destruct b; cbn [YaqlizedPaths.run_path] in H; unfold call_path in H;
-      destruct (filter_kwargs cfg kw); try discriminate; exact (dispatch_no_reach _ _ (ex_intro _ m H)).
+    intros st b n kw lam p Hp [m H]. subst p. destruct b; cbn [YaqlizedPaths.run_path] in H; unfold call_path in H;
+      destruct (filter_kwargs cfg kw); try discriminate.
+    - destruct (reg_meth n); [destruct lam|]; discriminate.
+    - destruct (reg_fn n); [destruct lam|]; discriminate.
   Qed.
 
-  (* an object the form's Yaqlized type check rejects (not yaqlized, or the switch is off) *)
+  Lemma call_never_invokes : forall st (b : bool) n kw (p : path),
+    p = (if b then PCallMeth n kw false else PCallFn n kw false) -> ~ invokes (run_path st p).
+  Proof.
+    intros st b n kw p Hp H. subst p. unfold invokes in H. destruct b; cbn [YaqlizedPaths.run_path] in H; unfold call_path in H;
+      destruct (filter_kwargs cfg kw); try discriminate.
+    - destruct (reg_meth n); discriminate.
+    - destruct (reg_fn n); discriminate.
+  Qed.
+
+  (* an object the form's Yaqlized type check rejects (not yaqlized, or the switch is off), not fed as a
+     callable value into a lambda parameter through call() *)
   Lemma fallback_never_reaches_host : forall st p,
-    (forall f, path_form p = Some f -> yaqlized_check f st = false) ->
-    ~ reaches (run_path st p) /\
+    (forall f, path_form p = Some f -> yaqlized_check f st = false) -> path_lam p = false ->
+    ~ reaches (run_path st p) /\ ~ invokes (run_path st p) /\
     (run_path st p = FDenied ENoMatch \/ run_path st p = FDenied ERuntime \/
      exists fn, run_path st p = FDispatch fn /\
                 (fn = indexer_name \/ reg_fn fn = true \/ reg_meth fn = true)).
   Proof.
-    intros st p H.
+    intros st p H HL.
     assert (D : forall b fn, (b = true -> reg_fn fn = true \/ reg_meth fn = true) ->
-              dispatch b fn = FDenied ENoMatch \/ dispatch b fn = FDenied ERuntime \/
-              exists fn', dispatch b fn = FDispatch fn' /\ (fn' = indexer_name \/ reg_fn fn' = true \/ reg_meth fn' = true)).
-    { intros b fn Hb. unfold dispatch. destruct b; [|left; reflexivity]. right. right. exists fn. split; [reflexivity|].
-      right. apply Hb. reflexivity. }
-    destruct p as [n|n|n|n|n|n kw|n kw]; cbn [YaqlizedPaths.run_path].
-    - unfold dot_attr. rewrite (H FAttr eq_refl). split; [apply dispatch_no_reach|]. apply D. intro E. left. exact E.
-    - unfold dot_method. rewrite (H FMethod eq_refl). split; [apply dispatch_no_reach|]. apply D. intro E. right. exact E.
-    - unfold index. rewrite (H FIndex eq_refl). split; [intros [m Hm]; discriminate|].
+              ~ reaches (dispatch b fn) /\ ~ invokes (dispatch b fn) /\
+              (dispatch b fn = FDenied ENoMatch \/ dispatch b fn = FDenied ERuntime \/
+              exists fn', dispatch b fn = FDispatch fn' /\ (fn' = indexer_name \/ reg_fn fn' = true \/ reg_meth fn' = true))).
+    { intros b fn Hb. split; [apply dispatch_no_reach|]. unfold dispatch, invokes. destruct b.
+      - split; [discriminate|]. right. right. exists fn. split; [reflexivity|]. right. apply Hb. reflexivity.
+      - split; [discriminate|]. left. reflexivity. }
+    destruct p as [n|n|n|n|n|n kw lam|n kw lam]; cbn [YaqlizedPaths.run_path]; cbn [path_lam] in HL.
+    - unfold dot_attr. rewrite (H FAttr eq_refl). apply D. intro E. left. exact E.
+    - unfold dot_method. rewrite (H FMethod eq_refl). apply D. intro E. right. exact E.
+    - unfold index. rewrite (H FIndex eq_refl). split; [intros [m Hm]; discriminate|]. split; [discriminate|].
       right. right. exists indexer_name. split; [reflexivity | left; reflexivity].
-    - unfold dot_attr. rewrite (H FAttr eq_refl). split; [apply dispatch_no_reach|]. apply D. intro E. left. exact E.
-    - unfold dot_method. rewrite (H FMethod eq_refl). split; [apply dispatch_no_reach|]. apply D. intro E. right. exact E.
-    - split; [exact (call_never_reaches st false n kw _ eq_refl)|]. unfold call_path.
-      destruct (filter_kwargs cfg kw); [|right; left; reflexivity]. apply D. intro E. left. exact E.
-    - split; [exact (call_never_reaches st true n kw _ eq_refl)|]. unfold call_path.
-      destruct (filter_kwargs cfg kw); [|right; left; reflexivity]. apply D. intro E. right. exact E.
+    - unfold dot_attr. rewrite (H FAttr eq_refl). apply D. intro E. left. exact E.
+    - unfold dot_method. rewrite (H FMethod eq_refl). apply D. intro E. right. exact E.
+    - subst lam. unfold call_path. destruct (filter_kwargs cfg kw).
+      + change (if reg_fn n then FDispatch n else FDenied ENoMatch) with (dispatch (reg_fn n) n). apply D. intro E. left. exact E.
+      + split; [intros [m Hm]; discriminate|]. split; [discriminate|]. right. left. reflexivity.
+    - subst lam. unfold call_path. destruct (filter_kwargs cfg kw).
+      + change (if reg_meth n then FDispatch n else FDenied ENoMatch) with (dispatch (reg_meth n) n). apply D. intro E. right. exact E.
+      + split; [intros [m Hm]; discriminate|]. split; [discriminate|]. right. left. reflexivity.
+  Qed.
+
+  (* the full-strength statement (no path ever touches a non-yaqlized object) fails exactly there *)
+  Lemma call_invokes_lambda_value : forall st n,
+    reg_fn n = true -> run_path st (PCallFn n [] true) = FInvoke.
+  Proof. intros st n H. cbn [YaqlizedPaths.run_path]. unfold call_path. cbn. rewrite H. reflexivity. Qed.
+
+  Lemma invoke_only_via_call : forall st p, run_path st p = FInvoke ->
+    path_lam p = true /\ path_form p = None.
+  Proof.
+    intros st p H. destruct p as [n|n|n|n|n|n kw lam|n kw lam]; cbn [YaqlizedPaths.run_path] in H.
+    - unfold dot_attr in H. destruct (yaqlized_check FAttr st); [destruct (access rs ps FAttr st n); discriminate | unfold dispatch in H; destruct (reg_fn _); discriminate].
+    - unfold dot_method in H. destruct (yaqlized_check FMethod st); [destruct (access rs ps FMethod st n); discriminate | unfold dispatch in H; destruct (reg_meth _); discriminate].
+    - unfold index in H. destruct (yaqlized_check FIndex st); [destruct (access rs ps FIndex st n); discriminate | discriminate].
+    - unfold dot_attr in H. destruct (yaqlized_check FAttr st); [destruct (access rs ps FAttr st n); discriminate | unfold dispatch in H; destruct (reg_fn _); discriminate].
+    - unfold dot_method in H. destruct (yaqlized_check FMethod st); [destruct (access rs ps FMethod st n); discriminate | unfold dispatch in H; destruct (reg_meth _); discriminate].
+    - unfold call_path in H. destruct (filter_kwargs cfg kw); [|discriminate]. destruct (reg_fn n); [|discriminate].
+      destruct lam; [split; reflexivity | discriminate].
+    - unfold call_path in H. destruct (filter_kwargs cfg kw); [|discriminate]. destruct (reg_meth n); [|discriminate].
+      destruct lam; [split; reflexivity | discriminate].
   Qed.
 
   Lemma not_yaqlized_all_forms : forall f, yaqlized_check f None = false.
@@ -248,7 +287,7 @@ Section Paths.
     { intros f n HL. destruct (access rs ps f st n) as [e|m'] eqn:Ea; cbn [lift] in HL; [discriminate|].
       inversion HL; subst m'. destruct (policy_sound rs ps f st n m Ea) as [s [Hs _]].
       exists s. split; [exact Hs|]. split; [reflexivity | exact (underscore_never rs ps f st n m Ea)]. }
-    destruct p as [n|n|n|n|n|n kw|n kw]; cbn [YaqlizedPaths.run_path] in H.
+    destruct p as [n|n|n|n|n|n kw lam|n kw lam]; cbn [YaqlizedPaths.run_path] in H.
     - unfold dot_attr in H. destruct (yaqlized_check FAttr st); [|exfalso; exact (dispatch_no_reach _ _ (ex_intro _ m H))].
       destruct (L _ _ H) as [s [A [B C]]]. exists FAttr, n, s. auto.
     - unfold dot_method in H. destruct (yaqlized_check FMethod st); [|exfalso; exact (dispatch_no_reach _ _ (ex_intro _ m H))].
@@ -259,8 +298,8 @@ Section Paths.
       destruct (L _ _ H) as [s [A [B C]]]. exists FAttr, n, s. auto.
     - unfold dot_method in H. destruct (yaqlized_check FMethod st); [|exfalso; exact (dispatch_no_reach _ _ (ex_intro _ m H))].
       destruct (L _ _ H) as [s [A [B C]]]. exists FMethod, n, s. auto.
-    - exfalso. exact (call_never_reaches st false n kw _ eq_refl (ex_intro _ m H)).
-    - exfalso. exact (call_never_reaches st true n kw _ eq_refl (ex_intro _ m H)).
+    - exfalso. exact (call_never_reaches st false n kw lam _ eq_refl (ex_intro _ m H)).
+    - exfalso. exact (call_never_reaches st true n kw lam _ eq_refl (ex_intro _ m H)).
   Qed.
 End Paths.
 
